@@ -243,6 +243,14 @@ impl Diff<'_> {
                   res.map(|(a, l, v)| format!("ok {a} {l} {}", hex_bytes(&v))), nt, "ringtrim");
     }
 
+    fn ringaligned(&mut self, data: &[u8], consume: usize, read_size: usize, inner_chunk: usize) {
+        let res = guarded(|| h::ring_run_aligned(data, consume, read_size, inner_chunk)).flatten();
+        let nt = res.as_ref().map(|(a, _, _)| !*a).unwrap_or(true);
+        if nt { self.sink.count("ringaligned.partial_line_dropped"); }
+        self.emit(format!("snippet ringaligned {} {consume} {read_size} {inner_chunk}", hex_bytes(data)),
+                  res.map(|(a, t, l)| format!("ok {} {} {l}", b(a), hex(&t))), nt, "ringaligned");
+    }
+
     fn ringrun(&mut self, data: &[u8], consume: usize, read_size: usize, inner_chunk: usize) {
         let res = guarded(|| h::ring_run(data, consume, read_size, inner_chunk)).flatten();
         let nt = res.as_ref().map(|(so, _, _, _)| *so > 0).unwrap_or(true);
@@ -399,6 +407,18 @@ fn differential(a: &Args, rng: &mut Rng, sink: &mut Sink) -> u64 {
         let read_size = *rng.pick(&[1usize, 3, 7, 64, 1000, 8192]);
         let inner_chunk = *rng.pick(&[1usize, 2, 5, 100, 4096, 100000]);
         d.ringrun(data.as_bytes(), consume, read_size, inner_chunk);
+        d.ringaligned(data.as_bytes(), consume, read_size, inner_chunk);
+    }
+    // the beginning of the first retained line is / is not evicted: long single line, line break
+    // exactly at the eviction edge, multi-byte character cut at the edge
+    for extra in [0usize, 1, 2, 3, 50] {
+        let one_line = "A".repeat(h::RING_BUFFER_SIZE + extra);
+        d.ringaligned(one_line.as_bytes(), one_line.len(), 64, 4096);
+        let edge = format!("{}\n{}", "x".repeat(extra), "y".repeat(h::RING_BUFFER_SIZE - 1));
+        d.ringaligned(edge.as_bytes(), edge.len(), 1000, 100000);
+        let edge2 = format!("{}\n{}\nk: v\n", "x".repeat(extra + 1), "é".repeat(h::RING_BUFFER_SIZE / 2 - 3));
+        d.ringaligned(edge2.as_bytes(), edge2.len(), 7, 5);
+        d.ringrun(edge2.as_bytes(), edge2.len(), 7, 5);
     }
     d.nontrivial.len() as u64
 }
